@@ -71,13 +71,19 @@ def split_dry_run(stdout):
     return res, order
 
 
-def run_binary(args, env_dirs, extra_env=None, timeout=20, cwd=None, arg0=None, fsize_limit=None):
+def run_binary(args, env_dirs, extra_env=None, timeout=20, cwd=None, arg0=None, fsize_limit=None, as_uid=None, binary=None):
     env = {k: v for k, v in os.environ.items() if k not in ('PODMAN', 'QUADLET_UNIT_DIRS')}
     env['QUADLET_UNIT_DIRS'] = env_dirs
     if extra_env:
         env.update(extra_env)
     pre = None
-    if fsize_limit is not None:
+    if as_uid is not None:
+        def pre():
+            # drop privileges: permission faults (EACCES/EPERM) exist for unprivileged users only
+            os.setgroups([])
+            os.setgid(as_uid)
+            os.setuid(as_uid)
+    elif fsize_limit is not None:
         def pre():
             # every file this process writes may grow to fsize_limit bytes only; the write that crosses the limit is
             # accepted partially and the next one fails with EFBIG (SIGXFSZ ignored): a sink with a byte budget
@@ -85,7 +91,7 @@ def run_binary(args, env_dirs, extra_env=None, timeout=20, cwd=None, arg0=None, 
             signal.signal(signal.SIGXFSZ, signal.SIG_IGN)
             resource.setrlimit(resource.RLIMIT_FSIZE, (fsize_limit, fsize_limit))
     try:
-        p = subprocess.run([core.BIN] + args, env=env, capture_output=True, timeout=timeout, cwd=cwd, preexec_fn=pre)
+        p = subprocess.run([binary or core.BIN] + args, env=env, capture_output=True, timeout=timeout, cwd=cwd, preexec_fn=pre)
         return p.returncode, p.stdout.decode('utf-8', 'replace'), p.stderr.decode('utf-8', 'replace')
     except subprocess.TimeoutExpired as ex:
         return 'timeout', (ex.stdout or b'').decode('utf-8', 'replace'), (ex.stderr or b'').decode('utf-8', 'replace')
